@@ -1329,13 +1329,14 @@ func vsubConfigs(tier string) []vsubCfg {
 		full(vsubCfg{Name: "hdr-getter-overflow", Subs: 1, Prefill: 15, Headers: 3, HdrGetterBlocks: true, Depth: whole}),
 		full(vsubCfg{Name: "two-subs", Subs: 2, Headers: 3, Depth: whole}),
 		full(vsubCfg{Name: "two-subs-hdr-getter", Subs: 2, Headers: 2, HdrGetterBlocks: true, Depth: whole}),
-		full(vsubCfg{Name: "two-subs-overflow", Subs: 2, Prefill: 15, Headers: 3, Depth: 14}),
 		// overlapping retrievals of the same (height, namespace)
 		full(vsubCfg{Name: "same-namespace", Subs: 2, SameNS: true, Headers: 3, Depth: whole}),
 		full(vsubCfg{Name: "same-namespace-hdr-getter", Subs: 2, SameNS: true, Headers: 2, HdrGetterBlocks: true, Depth: whole}),
 		{Name: "sub-and-getall", Subs: 1, GetAlls: 3, Headers: 3, Answers: []string{"ok", "fail"}, Cancel: true, Stop: true, FClose: true, HdrStop: true, Depth: whole},
 		{Name: "sub-and-getall-hdr-getter", Subs: 1, GetAlls: 2, Headers: 2, HdrGetterBlocks: true, Answers: []string{"ok", "fail"}, Cancel: true, Stop: true, Depth: whole},
 		{Name: "same-namespace-and-getall", Subs: 2, SameNS: true, GetAlls: 1, Headers: 2, Answers: []string{"ok", "fail"}, Cancel: true, Stop: true, Depth: whole},
+		// last: the largest run takes whatever budget is left
+		full(vsubCfg{Name: "two-subs-overflow", Subs: 2, Prefill: 15, Headers: 3, Depth: 13}),
 	}
 }
 
